@@ -3,10 +3,38 @@
 verus! {
 pub use vstd::utf8::*;
 pub use vstd::string::StringSliceAdditionalSpecFns;
+pub use vstd::slice::SliceIndexSpec;
 
 pub assume_specification [core::str::from_utf8_unchecked] (b: &[u8]) -> (r: &str)
     requires valid_utf8(b@),
     ensures r@ == decode_utf8(b@), r.spec_bytes() == b@;
+
+pub assume_specification [<char>::from_u32_unchecked] (i: u32) -> (r: char)
+    requires is_scalar(i),
+    ensures r as u32 == i;
+
+pub assume_specification<I> [<str>::get::<I>] (s: &str, i: I) -> (r: Option<&<I as core::slice::SliceIndex<str>>::Output>)
+    where I: core::slice::SliceIndex<str>
+    ensures
+        i.in_bounds(s) ==> r is Some && i.index_postcondition(s, r.unwrap()),
+        !i.in_bounds(s) ==> r is None;
+
+pub assume_specification<I> [<str>::get_unchecked::<I>] (s: &str, i: I) -> (r: &<I as core::slice::SliceIndex<str>>::Output)
+    where I: core::slice::SliceIndex<str>
+    requires i.in_bounds(s),
+    ensures i.index_postcondition(s, r);
+
+pub assume_specification<T, I> [<[T]>::get_unchecked::<I>] (s: &[T], i: I) -> (r: &<I as core::slice::SliceIndex<[T]>>::Output)
+    where I: core::slice::SliceIndex<[T]>
+    requires i.in_bounds(s),
+    ensures i.index_postcondition(s, r);
+
+/// every `str` is a byte slice, and slice lengths fit in usize (vstd states this for slices only)
+#[verifier::external_body]
+pub broadcast proof fn axiom_str_len_bound(s: &str)
+    ensures #[trigger] s.spec_bytes().len() <= usize::MAX, s@.len() <= s.spec_bytes().len(),
+{
+}
 
 // position shims: bodies are the original std iterator chains, contracts state first-match semantics
 #[verifier::external_body]
